@@ -21,7 +21,7 @@ def case_fn(c):
     elif kind == "adaptive":
         fails = oracle.check_adaptive_run(c["model"], c["T"], c["dt"], c.get("dts"), c["vec"], method=c.get("method", "RK45"))
     elif kind == "overrides":
-        fails = oracle.check_overrides(c["model"], c["ops"], c["vec"], seed=c.get("seed", 0))
+        fails = oracle.check_overrides(c["model"], c["ops"], c["vec"], seed=c.get("seed", 0), share_nodes=c.get("share", True))
     elif kind == "readonly":
         fails = oracle.check_read_only(c["model"], c["ops"], seed=c.get("seed", 0), dict_vars=c.get("dict_vars", False))
     elif kind == "inputs":
@@ -36,13 +36,13 @@ def case_fn(c):
         fails = oracle.check_grid_search(c["model"], c["grid"], c["param_map"], c["outputs"], vectorize=c["vec"], permute=c.get("permute", False),
                                          as_frame=c.get("as_frame"), inputs=c.get("inputs"))
     elif kind == "dde_field":
-        fails = oracle.check_dde_field(c["model"], c["solver"], seed=c.get("seed", 0))
+        fails = oracle.check_dde_field(c["model"], c["solver"], seed=c.get("seed", 0), vectorize=c.get("vec", False))
     elif kind == "dde_run":
         fails = oracle.check_dde_run(c["model"], c["solver"], T=c.get("T", 2.0), dts=c.get("dts", 0.05))
     elif kind == "expr_eval":
         fails = oracle.check_expr_eval(c["tree"], c["values"], style=c.get("style", 0))
     elif kind == "outputs":
-        fails = oracle.check_outputs(c["model"], c["request"], c["form"], c["vec"])
+        fails = oracle.check_outputs(c["model"], c["request"], c["form"], c["vec"], pre_runs=tuple(c.get("pre_runs", ())))
     else:
         raise ValueError(kind)
     return dict(status="violated" if fails else "ok", fails=fails[:2])
